@@ -3,6 +3,7 @@ package main
 // C02 attacker toolkit: envelopes built by hand from primitives, as an outsider or a misbehaving co-recipient would.
 
 import (
+	"golang.org/x/crypto/curve25519"
 	"sort"
 	"crypto/sha256"
 	"crypto/aes"
@@ -159,7 +160,9 @@ func envForgeMallory(c envCase, parties []*envParty) ([]byte, bool) {
 // its own key (the key the key wrapping really used), `skid` names the sender. Whichever of the two headers a recipient
 // authenticates the envelope with is the one it must attribute the envelope to.
 func envForgeApuMallory(c envCase, parties []*envParty) ([]byte, bool) {
-	if c.kind != "aj" || c.nrec < 2 || c.enc != "xc" || len(parties) < 4 {
+	// (as the framework seals such envelopes: ONE ephemeral key for all recipients, named with alg / apu / apv in the
+	// PROTECTED header; X25519 keys with XC20P key wrapping and content encryption)
+	if c.kind != "aj" || c.nrec < 2 || c.enc != "xc" || c.kt != "x25519" || len(parties) < 4 {
 		return nil, false
 	}
 	mallory := parties[len(parties)-1]
@@ -184,8 +187,18 @@ func envForgeApuMallory(c envCase, parties []*envParty) ([]byte, bool) {
 	}
 	sort.Strings(kids)
 	apvRaw := sha256.Sum256([]byte(strings.Join(kids, ".")))
+	ePriv := make([]byte, 32)
+	for i := range ePriv {
+		ePriv[i] = byte(i*7 + 9)
+	}
+	ePub, err := curve25519.X25519(ePriv, curve25519.Basepoint)
+	if err != nil {
+		return nil, false
+	}
+	epk := &cryptoapi.PrivateKey{PublicKey: cryptoapi.PublicKey{Type: "OKP", Curve: "X25519", X: ePub}, D: ePriv}
 	prot := map[string]interface{}{"typ": "application/didcomm-encrypted+json", "cty": "application/didcomm-plain+json",
-		"enc": "XC20P", "skid": skid, "apu": b64u([]byte(malloryKID)), "apv": b64u(apvRaw[:])}
+		"enc": "XC20P", "alg": "ECDH-1PU+XC20PKW", "epk": epkJSON(&epk.PublicKey), "skid": skid,
+		"apu": b64u([]byte(malloryKID)), "apv": b64u(apvRaw[:])}
 	pb, _ := json.Marshal(prot)
 	p64 := b64u(pb)
 	cek := make([]byte, 32)
@@ -198,17 +211,13 @@ func envForgeApuMallory(c envCase, parties []*envParty) ([]byte, bool) {
 	}
 	var recJSON []interface{}
 	for _, r := range recs {
-		opts := []cryptoapi.WrapKeyOpts{cryptoapi.WithSender(khi), cryptoapi.WithTag(tag)}
-		if c.kt == "x25519" {
-			opts = append(opts, cryptoapi.WithXC20PKW())
-		}
-		// (the recipient feeds the header TEXTS of apu / apv into the KDF)
-		wk, err := envCrypto.WrapKey(cek, []byte(b64u([]byte(malloryKID))), []byte(b64u(apvRaw[:])), r, opts...)
+		wk, err := envCrypto.WrapKey(cek, []byte(malloryKID), apvRaw[:], r, cryptoapi.WithSender(khi), cryptoapi.WithTag(tag),
+			cryptoapi.WithEPK(epk), cryptoapi.WithXC20PKW())
 		if err != nil || !strings.HasPrefix(wk.Alg, "ECDH-1PU") {
 			return nil, false
 		}
-		recJSON = append(recJSON, map[string]interface{}{"header": map[string]interface{}{"alg": wk.Alg, "kid": r.KID,
-			"epk": epkJSON(&wk.EPK)}, "encrypted_key": b64u(wk.EncryptedCEK)})
+		recJSON = append(recJSON, map[string]interface{}{"header": map[string]interface{}{"kid": r.KID},
+			"encrypted_key": b64u(wk.EncryptedCEK)})
 	}
 	out, err := json.Marshal(map[string]interface{}{"protected": p64, "recipients": recJSON, "iv": b64u(nonce),
 		"ciphertext": b64u(ct), "tag": b64u(tag)})
